@@ -20,6 +20,9 @@ NAMES = ["x", "y", "z"]
 
 
 def main():
+    from verif import linecov
+
+    linecov.start_from_env()
     spec = json.load(open(sys.argv[1]))
     ops_path = sys.argv[2]
     lib = ctypes.CDLL(None)
